@@ -507,3 +507,16 @@ Proof. intros Hle Hop. exact (run_app_transfer A B (arith_le_sim _ _ Hle Hop) in
 
 Theorem rep_refines_both : arith_le rep exact /\ arith_le rep dec /\ op_only rep.
 Proof. split; [exact rep_le_exact | split; [exact rep_le_dec | exact rep_op_only]]. Qed.
+
+(* every theorem about all runs of the exact ledger reads verbatim for the
+   rounded ledger on histories [rep] accepts *)
+Theorem exact_theorems_transfer
+  (P : option status -> list tx -> list delta -> option stop -> Prop) :
+  (forall init txs ds o, run exact init txs = (ds, o) -> P init txs ds o) ->
+  forall init txs ds o,
+    run rep init txs = (ds, o) -> opstopb o = false ->
+    run dec init txs = (ds, o) /\ P init txs ds o.
+Proof.
+  intros HP init txs ds o H Ho. destruct (dec_equals_exact_when_representable _ _ _ _ H Ho) as [Hd He].
+  split; [exact Hd | exact (HP _ _ _ _ He)].
+Qed.
